@@ -15,12 +15,15 @@ func init() {
 
 // VerifHarness_C05_kernel: calcPercentUsage + calcScaleUpDelta on n equal-size
 // nodes; request totals symbolic; oracle in exact integer arithmetic.
-// shape: [n, threshold, milliCPU per node, MiB per node, request multiple]
+// shape: [n, threshold, milliCPU per node, MiB per node, request multiple, (optional) exact bytes per node]
 func VerifHarness_C05_kernel() {
 	n := int64(verifShape(0))
 	T := int64(verifShape(1))
 	cpu1 := int64(verifShape(2))          // milli-CPU per node
 	mem1 := int64(verifShape(3)) << 20    // bytes per node
+	if b := int64(verifShape(5)); b > 0 {
+		mem1 = b // exact byte size (optional 6th shape parameter)
+	}
 	mult := int64(verifShape(4))          // requests up to mult x capacity
 	cpuReq := verifInt("cpuReq", 0, mult*n*cpu1)
 	memReq := verifInt("memReq", 0, mult*n*mem1)
